@@ -414,6 +414,33 @@ func TestVF_C20_Boundary(t *testing.T) {
 			}
 		}
 	}
+	// two streams that are served by the same server shard (the initiator's cluster has more shards than the serving
+	// one, or one stream per initiator shard): when one ends, the process-wide stream table must still list the other
+	for _, mode := range []string{"default", "lcm"} {
+		c := c20Case{Mode: mode, L: 4, R: 8}
+		w := c20NewWorld(c)
+		h := w.openHeld(vfStreamMD(2, 1, 1, 1))
+		if _, p, ok := w.open(vfStreamMD(2, 5, 1, 1)); p != nil || !ok {
+			t.Fatalf("HARNESS: second stream: panic=%v returned=%v", p, ok)
+		}
+		listed := false
+		for _, si := range GetGlobalStreamTracker().GetActiveStreams() {
+			if si.Role == StreamRoleForwarder && strings.HasSuffix(si.ClientShard, "shard: 1)") && strings.Contains(si.ClientShard, "id: 2") {
+				listed = true
+			}
+		}
+		if !listed {
+			var have []string
+			for _, si := range GetGlobalStreamTracker().GetActiveStreams() {
+				have = append(have, si.ID+" client="+si.ClientShard)
+			}
+			cc := c20Case{Mode: mode, L: 4, R: 8, Opens: []c20Open{{Hold: true, MD: [4][]string{{"2"}, {"1"}, {"1"}, {"1"}}}, {MD: [4][]string{{"2"}, {"5"}, {"1"}, {"1"}}}}, After: 0}
+			c20Fail(t, st, part, cc, fmt.Errorf("mode %s: the stream of initiator shard 1 is open and served, another stream served by the same server shard (initiator shard 5) has just ended - and took the first one's entry in the process-wide stream table with it (listed now: %v)", mode, have))
+		}
+		w.release(h)
+		w.cancel()
+		st.Case(vfshared.Fingerprint("tracker", mode), true, "two_streams_served_by_the_same_server_shard")
+	}
 	// the intra-proxy marker on a stream open (a peer proxy's stream, a mis-routed one, or anybody who sets the header):
 	// alone, and while an ordinary stream of the named server shard is open (so that shard is registered here)
 	for _, mode := range []struct {
